@@ -8,7 +8,9 @@ let zi i = if i = 0 then Z0 else if i > 0 then Zpos (posi i) else Zneg (posi (- 
 let rec nati i = if i <= 0 then O else S (nati (i - 1))
 let ios s = try int_of_string s with _ -> failwith ("int: " ^ s)
 
-let cfgtab : (int, cfg) Hashtbl.t = Hashtbl.create 32
+let cfgtab : (int, cfg) Hashtbl.t = Hashtbl.create 32     (* current values (SetBackoffFnCfg) *)
+let cfg0 : (int, cfg) Hashtbl.t = Hashtbl.create 32       (* as read from the code at start *)
+let cfgname : (int, string) Hashtbl.t = Hashtbl.create 32
 
 let dots f l = String.concat "." (List.map f l)
 let amap l =
@@ -19,11 +21,16 @@ let state_of (w : world) (i : int) : string =
   match List.nth_opt w.w_bos i with
   | None -> Printf.sprintf "%d=missing" i
   | Some b ->
-    Printf.sprintf "%d=%d,%d,%d,%d|%s|%s|%s|%s|%s" i (iz b.b_max) (iz b.b_total) (iz b.b_excl) (iz b.b_errnum)
+    let ttimes = List.fold_left (fun a (_, v) -> a + iz v) 0 b.b_times in
+    let str = if iz b.b_total = 0 then "" else
+      Printf.sprintf " backoff(%dms [%s])" (iz b.b_total)
+        (String.concat " " (List.map (fun c -> try Hashtbl.find cfgname (iz c.c_id) with Not_found -> "?") b.b_cfgs)) in
+    Printf.sprintf "%d=%d,%d,%d,%d,%d,%d,%d,%d|%s|%s|%s|%s|%s|%s" i (iz b.b_max) (iz b.b_total) (iz b.b_excl) (iz b.b_errnum)
+      (int_of_nat b.b_ctx) (match b.b_vars with Some v -> int_of_nat v | None -> -1) (iz (killed_sig w b)) ttimes
       (dots (fun e -> string_of_int (iz e)) (latest_errs b))
       (amap b.b_sleep) (amap b.b_times)
       (dots (fun c -> string_of_int (iz c.c_id)) b.b_cfgs)
-      (dots (fun n -> string_of_int (iz n)) (get_types w (nati i)))
+      (dots (fun n -> string_of_int (iz n)) (get_types w (nati i))) str
 
 let parse_excl s =
   if s = "" then [] else
@@ -41,17 +48,24 @@ let res_match r impl = match r with
   | _ -> res_str r = impl
 
 let () =
-  let env = ref { e_excl = []; e_lfname = Z0 } and w = ref init_world and seq = ref "" and cls = ref "" in
+  let env = ref { e_excl = []; e_lfnames = [] } and w = ref init_world and seq = ref "" and cls = ref "" in
   let skipping = ref false and opi = ref 0 in
+  let nx = ref 0 in
   let nops = ref 0 and nseq = ref 0 and mism = ref 0 and pfail = ref 0 and states = ref 0 in
   let counts = Hashtbl.create 64 in
   let bump k = Hashtbl.replace counts k (1 + (try Hashtbl.find counts k with Not_found -> 0)) in
   read_lines (fun line ->
     match split_tab line with
-    | "CFG" :: id :: name :: base :: cap :: jit :: err :: _ ->
-        Hashtbl.replace cfgtab (ios id) { c_id = zi (ios id); c_name = zi (ios name); c_base = zi (ios base); c_cap = zi (ios cap); c_jit = zi (ios jit); c_err = zi (ios err) }
+    | "X" :: b :: c :: n :: "=>" :: v :: _ ->
+        incr nx;
+        let m = iz (expo (zi (ios b)) (zi (ios c)) (zi (ios n))) in
+        if m <> ios v then begin incr mism; if !mism <= 30 then Printf.printf "MISMATCH\t-1\t0\texpo model=%d\t%s\n" m line end
+    | "CFG" :: id :: name :: base :: cap :: jit :: err :: nm :: _ ->
+        Hashtbl.replace cfgname (ios id) nm;
+        Hashtbl.replace cfg0 (ios id) { c_id = zi (ios id); c_name = zi (ios name); c_base = zi (ios base); c_cap = zi (ios cap); c_jit = zi (ios jit); c_err = zi (ios err) }
     | "S" :: s :: c :: excl :: lf :: _ ->
-        env := { e_excl = parse_excl excl; e_lfname = zi (ios lf) }; w := init_world; seq := s; cls := c; skipping := false; opi := 0; incr nseq
+        Hashtbl.reset cfgtab; Hashtbl.iter (fun k v -> Hashtbl.replace cfgtab k v) cfg0;
+        env := { e_excl = parse_excl excl; e_lfnames = (if lf = "" then [] else List.map (fun x -> zi (ios x)) (String.split_on_char ';' lf)) }; w := init_world; seq := s; cls := c; skipping := false; opi := 0; incr nseq
     | "E" :: _ -> ()
     | "O" :: k :: rest when not !skipping ->
         incr opi; incr nops;
@@ -65,13 +79,19 @@ let () =
         let o = (match k with
           | "V" -> ONewVars (zi (a 0), zi (a 1))
           | "N" -> ONew (zi (a 0), nati (a 1), zi (a 2))
-          | "B" -> OBackoff (nati (a 0), Hashtbl.find cfgtab (a 1), zi (a 2), zi (a 3), zi (a 4))
+          | "B" -> OBackoff (nati (a 0), Hashtbl.find cfgtab (a 1), zi (a 2), zi (a 3), zi (a 5))
+          | "SE" -> OSetErr (zi (a 0), zi (a 1))
+          | "SC" -> OSetCtx (nati (a 0), nati (a 1))
+          | "SF" -> let c = Hashtbl.find cfgtab (a 0) in
+                    Hashtbl.replace cfgtab (a 0) { c with c_base = zi (a 1); c_cap = zi (a 2); c_jit = zi (a 3) };
+                    ONewVars (Z0, Z0) (* placeholder, not executed *)
+          | "MN" -> ONewVars (Z0, Z0) (* placeholder, not executed *)
           | "C" -> OClone (nati (a 0)) | "F" -> OFork (nati (a 0))
           | "M" -> OMerge (nati (a 0), nati (a 1))
           | "R" -> OReset (nati (a 0)) | "RM" -> OResetMax (nati (a 0), zi (a 1))
           | "X" -> OCancel (nati (a 0)) | "K" -> OKill (nati (a 0), zi (a 1))
           | _ -> failwith ("op " ^ k)) in
-        let (w', r) = step !env !w o in
+        let (w', r) = if k = "SF" || k = "MN" then (!w, RNone) else step !env !w o in
         let rcls = (match String.index_opt impl_res ':' with Some i -> String.sub impl_res 0 i | None -> impl_res) in
         bump (!cls ^ ":" ^ k ^ ":" ^ rcls);
         let fail kind detail =
@@ -93,5 +113,5 @@ let () =
           cmp impl_states
         end
     | _ -> ());
-  Printf.printf "STATS\tseqs=%d\tops=%d\tstates=%d\tmismatches=%d\tpropfails=%d\n" !nseq !nops !states !mism !pfail;
+  Printf.printf "STATS\tseqs=%d\tops=%d\tstates=%d\tmismatches=%d\tpropfails=%d\texpo=%d\n" !nseq !nops !states !mism !pfail !nx;
   Hashtbl.iter (fun k v -> Printf.printf "COUNT\t%s\t%d\n" k v) counts
